@@ -41,6 +41,13 @@ type RoundTripper struct {
 }
 
 func (rt *RoundTripper) RoundTrip(req *http.Request) (*http.Response, error) {
+	// the cache key does not cover the body of a request. So, only the responses to requests,
+	// which are defined by their target only, are cached. Otherwise, the response to one request
+	// (e.g. the result of the introspection of a token) would be served for a different one.
+	if req.Method != http.MethodGet && req.Method != http.MethodHead {
+		return rt.Transport.RoundTrip(req)
+	}
+
 	resp, err := rt.cachedResponse(req)
 	if err == nil {
 		return resp, nil
